@@ -12,6 +12,7 @@ import math
 import os
 import traceback
 from concurrent.futures import ProcessPoolExecutor
+from fractions import Fraction
 
 from .. import coq, runs
 
@@ -149,8 +150,14 @@ def part_a(ctx, pool):
     tasks = enum_tasks(ctx)
     ctx.log("(a) %d exhaustive single-move enumerations" % len(tasks))
     total_paths = 0
+    subtree_obs = []
     for res in pool.map(_enum_task, tasks, chunksize=4):
         kind, proposal, op, N, thr, spec, npts = res["task"]
+        if kind == "subtree" and "skipped" not in res:
+            choice_crash = any(c["type"] == "ValueError" and c["site"].endswith("sample_tree") for c in res["crashes"])
+            other_crash = any(not (c["type"] == "ValueError" and c["site"].endswith("sample_tree")) for c in res["crashes"])
+            if not other_crash:
+                subtree_obs.append((spec, choice_crash, res["mass"]))
         if "skipped" in res:
             ctx.count("a:skipped(too many paths)")
             continue
@@ -172,6 +179,7 @@ def part_a(ctx, pool):
             ctx.broken_tie("enumeration mass %.12f != 1 for %r" % (res["mass"], res["task"]))
     ctx.extra["a_enumerations"] = len(tasks)
     ctx.extra["a_decision_paths"] = total_paths
+    return subtree_obs
 
 
 # ---------------------------------------------------------------- (b) the real chain driver
@@ -338,6 +346,62 @@ def part_b(ctx, pool):
     return sorted(iters_seen)
 
 
+# ---------------------------------------------------------------- (c) the concentration update, as wired by run.py
+def _conc_task(task):
+    """update_concentration_value on a tree with k clones over n points, one fresh generator per seed: the new alpha
+    must be finite and positive and log_p_one under it finite."""
+    k, n, seeds = task
+    from fractions import Fraction
+
+    import numpy as np
+
+    from phyclone.run import setup_kernel, setup_samplers, update_concentration_value
+    from phyclone.tree import FSCRPDistribution, TreeJointDistribution
+
+    from pv.trees import build_tree, make_data
+
+    vals = [[[Fraction(v, 16) for v in row] for row in pt] for pt in (VALS2 * 2)[:n]]
+    data = make_data(vals, outlier_prob=0.4)
+    if k == 0:
+        spec = ((), tuple(range(n)))
+    else:
+        spec = (tuple(((i,), ()) for i in range(k - 1)) + ((tuple(range(k - 1, n)), ()),), ())
+    bad = []
+    for seed in seeds:
+        rng = np.random.default_rng(seed)
+        tree_dist = TreeJointDistribution(FSCRPDistribution(1.0))
+        samplers = setup_samplers(setup_kernel(0.4, "semi-adapted", rng, tree_dist), 2, 0.4, 0.5, rng, tree_dist)
+        tree = build_tree(spec, data)
+        with np.errstate(all="ignore"):
+            update_concentration_value(samplers.conc_sampler, tree, tree_dist)
+            a = float(tree_dist.prior.alpha)
+            lp = float(tree_dist.log_p_one(tree))
+        if not (math.isfinite(a) and a > 0 and math.isfinite(lp)):
+            bad.append((seed, a, lp))
+    return {"task": (k, n, len(seeds)), "bad": bad[:5], "nbad": len(bad)}
+
+
+def part_c(ctx, pool):
+    per = 4000 if ctx.quick else 40000
+    tasks = []
+    for k, n in ((0, 1), (0, 3), (1, 1), (1, 3), (3, 3)):
+        base = ctx.rng.randrange(10**6)
+        for j in range(0, per, 1000):
+            tasks.append((k, n, list(range(base + j, base + j + 1000))))
+    ctx.log("(c) %d concentration updates through run.update_concentration_value" % (len(tasks) * 1000))
+    for res in pool.map(_conc_task, tasks):
+        k, n, m = res["task"]
+        ctx.case(key=("c", k, n), nontrivial=True, n=m, sample={"clones": k, "points": n, "updates": m, "bad": res["nbad"]})
+        ctx.count("c:clones=%d" % k, m)
+        if res["nbad"]:
+            seed, a, lp = res["bad"][0]
+            ctx.fail(
+                "C19:concentration.sample:%s:alpha-not-positive" % ("no-clusters" if k == 0 else "clusters>=1"),
+                "concentration update on a tree with %d clones returned alpha = %r (log_p_one = %r) for %d of %d generators" % (k, a, lp, res["nbad"], m),
+                {"part": "c", "clones": k, "points": n, "seed": seed, "alpha": a, "log_p_one": repr(lp), "call": "phyclone.run.update_concentration_value(setup_samplers(...).conc_sampler, tree, tree_dist) with rng = numpy.random.default_rng(seed)"},
+            )
+
+
 # ---------------------------------------------------------------- correspondence with the Coq model
 def _reads_task(task):
     """Indices of constrained_path read by one real conditional-SMC sweep, by phase, and whether it raised."""
@@ -414,7 +478,7 @@ def _reads_task(task):
     return {"task": task, "phases": phases, "crashed": crashed}
 
 
-def correspondence(ctx, pool, iters_seen):
+def correspondence(ctx, pool, iters_seen, subtree_obs):
     tasks = []
     for proposal, op, N, thr, npts in itertools.product(["bootstrap", "semi-adapted", "fully-adapted"], (0.0, 0.4), (1, 2, 3), (0.0, 0.5, 1.0), (1, 2, 3, 4)):
         for k in range(1 if ctx.quick else 3):
@@ -428,8 +492,27 @@ def correspondence(ctx, pool, iters_seen):
         "Definition chk (fixed : bool) (T : nat) (init : bool) (trig : list bool) (obs : list nat) (crashed : bool) : bool :=",
         "  let l := sample_reads fixed T init (fun it => nth it trig false) in",
         "  Bool.eqb (reads_ok T l) (negb crashed) && (if crashed then true else lnat_eqb l obs).",
-        "Definition chk_iters (n thin : nat) (stop : bool) (obs : list nat) : bool := lnat_eqb (trace_iters n thin (fun _ => stop)) obs."])
+        "Definition chk_iters (n thin : nat) (stop : bool) (obs : list nat) : bool := lnat_eqb (trace_iters n thin (fun _ => stop)) obs.",
+        "Definition chk_pick (fixed : bool) (labels : list (nat * option nat)) (obs : Q) : bool := qcclose (1#1000000000) (mass (subtree_pick fixed labels)) obs."])
     items, meta = [], []
+    # the subtree pick: surviving probability mass of one subtree move vs the model's pick on the same labels
+    from ..trees import spec_nodes
+
+    pick_variant = "false" if any(crash for _, crash, _ in subtree_obs) else "true"
+    ctx.extra["corr_subtree_pick_variant"] = "rng.choice on the non-outlier labels (raises on all-outlier trees)" if pick_variant == "false" else "all-outlier trees fall back to the whole-tree update"
+    seen_specs = set()
+    for spec, crash, m in subtree_obs:
+        if (spec, crash) in seen_specs:
+            continue
+        seen_specs.add((spec, crash))
+        labels = []
+        for j, node in enumerate(spec_nodes(spec)):
+            labels += [(i, "Some %d" % j) for i in node[0]]
+        labels += [(i, "None") for i in spec[1]]
+        fr = Fraction(m).limit_denominator(10**12)
+        items.append("chk_pick %s [%s] (%d#%d)%%Q" % (pick_variant, "; ".join("(%d, %s)" % l for l in sorted(labels)), fr.numerator, fr.denominator))
+        meta.append(("pick", spec, crash, m))
+        ctx.case(key=("corr-pick", spec, crash), nontrivial=bool(spec[1]))
     for o in obs:
         proposal, op, N, thr, npts, seed = o["task"]
         init, trig, reads = False, [False] * (npts + 1), []
@@ -473,13 +556,14 @@ def run(ctx):
         "of 3-point two-particle updates) x proposal x outlier prob {0, 0.4} x particles {1, 2} x threshold {0, 0.5, 1}: every random outcome of one PG update, one subtree "
         "update, one data-point sweep, one prune-regraft move enumerated through the real setup_kernel/setup_samplers wiring; (b) run_phyclone_chain on inputs loaded by the real "
         "loader over the product of the boundary values of the click declarations of `phyclone run` (quick: seeded subset of 150 + named corners; thorough: the full product), "
-        "2 seeds each; non-trivial = more than one decision path (a) / every run (b); distinct = (move, options, start tree) or (options, input shape)"
+        "2 seeds each; (c) run.update_concentration_value on trees with 0, 1, 3 clones under 4e3 (thorough 4e4) fresh generators each; non-trivial = more than one decision path (a) / every run (b); distinct = (move, options, start tree) or (options, input shape)"
     )
     ctx.exhaustive = False
     with ProcessPoolExecutor(max_workers=WORKERS) as pool:
-        part_a(ctx, pool)
+        subtree_obs = part_a(ctx, pool)
         iters_seen = part_b(ctx, pool)
-        correspondence(ctx, pool, iters_seen)
+        part_c(ctx, pool)
+        correspondence(ctx, pool, iters_seen, subtree_obs)
     ctx.assumptions += [
         "C19_driver_total is conditional on per-kernel totality hypotheses (to be discharged by C01/C04/C07/C08), validated here by exhaustive enumeration on <= 2-3 points and by driver runs",
         "enumerating generator visits every outcome numpy could produce (pv.enumrng)",
